@@ -55,7 +55,7 @@ static long g_cases = 0, g_violCases = 0;
 static void RepLine(const std::string & s) {std::string t = s; t += '\n'; ssize_t r = write(g_repFd, t.data(), t.size()); (void) r;}
 static void RepJ(const J & v) {RepLine(mj::ToString(v));}
 static void SetCur(const std::string & s) {if (g_curFd >= 0) {ssize_t r = pwrite(g_curFd, s.data(), s.size(), 0); (void) r; int q = ftruncate(g_curFd, (off_t) s.size()); (void) q;}}
-static void SetStage(const char * s) {strncpy(g_stage, s, sizeof(g_stage)-1); g_stage[sizeof(g_stage)-1] = 0;}
+static void SetStage(const char * s) {strncpy(g_stage, s, sizeof(g_stage)-1); g_stage[sizeof(g_stage)-1] = 0; for (char * c = g_stage; *c; c++) if ((*c == '"')||(*c == '\\')||(*c < 0x20)) *c = '\'';}   // (goes into a JSON string from the signal handler)
 static void OnAlarm(int sig)
 {
    static char b[4000];
